@@ -28,6 +28,9 @@ CHECKS = {
  "C11": ("stateful PBT over histories: snapshot-extension invariant after every op, replay determinism (same thread / other thread), isomorphism under generated permutations of the roots (proptest)",
          "Exploration: every prefix of every generated history is compared with the next state; the whole history is replayed twice; the roots are re-registered in a generated order and the two registries must be isomorphic under the root-induced renaming.",
          "Cross-process reproducibility is observed by C15's fingerprints, not here.", "2/C11"),
+ "C15": ("differential PBT across feature configurations: generated corpus programs compiled and run against scale-info built under 6 (quick) / 48 (thorough) feature sets; byte-equality of registry fingerprints (proptest over programs)",
+         "Exploration over (program, feature-set pair): 160 programs x 15 pairs (quick); every distinct feature set in the thorough tier. Docs on/off compared modulo documentation strings.",
+         "Host builds only (no Wasm target in the image); the derive feature is always on.", "2/C15"),
  "C16": ("PBT over triples of types: ==, cmp, hash, type_id against the independently computed declared identity TypeId::of::<T::Identity>(), plus coherence of definitions (proptest)",
          "Exploration over triples drawn from 44 shapes x 16 nodes (with aliases and nested wrappers) under generated specs: equality/order/hash laws and 'same declared identity => equal type_info()'.",
          "The declared identity is computed in the harness through a generic visitor, not through MetaType.", "2/C16"),
@@ -55,6 +58,9 @@ CHECKS = {
  "C14": ("fuzz-style PBT with fault injection: arbitrary and systematically corrupted SCALE bytes / JSON under catch_unwind and a counting allocator (proptest); libFuzzer targets scale_decode, json_decode in thorough",
          "Exploration + per-case fault enumeration (every truncation, every bit flip and every compact replacement of small valid encodings). Checks no panic/abort, linear memory envelope, canonical re-encode, total resolve.",
          "Assumes the envelope 128 KiB + 256 x input length expresses 'proportional'; worker death attributed by a supervisor process.", "2/C14"),
+ "C19": ("PBT with an external validity oracle: generated registries serialised by the library and validated by python jsonschema against schemars::schema_for!(PortableRegistry) over a pipe (proptest, shrinking against the subprocess)",
+         "Exploration over 20000 (quick) / 400000 (thorough) generated registries with every combination of present and omitted members, plus a registry of real types incl. a bit sequence; the schema is also checked against its meta-schema.",
+         "Trusted: python jsonschema 4.26.", "2/C19"),
  "C18": ("exhaustive enumeration over a class-representative alphabet up to length 6 (7 thorough) + PBT of segment lists / module paths / replacement tables against a reference DFA (proptest)",
          "Exhaustive within the stated alphabet and length for single segments; exploration for lists, Path::new and new_with_replace (panic iff model rejects).",
          "Trusted: the reference DFA for (r#)?[A-Za-z_][A-Za-z0-9_]*; classes outside the 12-symbol alphabet are represented by one member each.", "2/C18"),
